@@ -179,6 +179,8 @@ def fval_coq(v, top=True):
             return "(VFloat %s)" % common.coq_Z(v["$f"])
         if len(v) == 1 and "$t" in v:
             return "(VTime %s)" % common.coq_Z(v["$t"])
+        if len(v) == 1 and "$tz" in v:          # an aware datetime in another zone: the same instant
+            return "(VTime %s)" % common.coq_Z(v["$tz"][0])
         return "(vd [%s])" % "; ".join("(%s, %s)" % (cs(k), fval_coq(x, False)) for k, x in v.items())
     raise TypeError(type(v))
 
@@ -191,6 +193,8 @@ def fval_ref(v, top=True):
             return v["$f"] / 1024.0
         if len(v) == 1 and "$t" in v:
             return EPOCH + dt.timedelta(microseconds=v["$t"])
+        if len(v) == 1 and "$tz" in v:          # the reference is computed from the instant the caller wrote
+            return EPOCH + dt.timedelta(microseconds=v["$tz"][0])
         return {k: fval_ref(x, False) for k, x in v.items()}
     return v
 
@@ -509,7 +513,7 @@ def node_fval(rng, node, ctx_base):
         if r < 0.6:
             return ts_text(node[1], rng.choice(STYLES))
         if r < 0.8:
-            return {"$t": node[1]}
+            return {"$t": node[1]} if rng.random() < 0.5 else {"$tz": [node[1], rng.choice([-480, -300, 60, 120, 330, 540])]}
         return node[2]
     if k == "n":
         return "null"
@@ -534,6 +538,8 @@ def perturb(rng, v):
             return {"$f": v["$f"] + rng.choice([-1, 1, 1024])}
         if "$t" in v and len(v) == 1:
             return {"$t": v["$t"] + rng.choice([-1, 1, 1000, -1000, 500000])}
+        if "$tz" in v and len(v) == 1:
+            return {"$tz": [v["$tz"][0] + rng.choice([-1, 1, 1000, -1000, 500000]), v["$tz"][1]]}
         return dict(list(v.items())[:-1]) if v else {"k": "v"}
     if isinstance(v, list):
         return v[:-1] if v and rng.random() < 0.5 else v + ["zz"]
@@ -551,7 +557,7 @@ def type_ok_value(v):
     if isinstance(v, list):
         return "_" not in v
     if isinstance(v, dict):
-        return not (len(v) == 1 and ("$f" in v or "$t" in v)) and "_" not in v
+        return not (len(v) == 1 and ("$f" in v or "$t" in v or "$tz" in v)) and "_" not in v
     return False
 
 
@@ -650,6 +656,31 @@ def gen_filter_list(rng, pop, paths, hist, strict):
             fl.append(gen_prop_filter(rng, paths, hist))
     if fl and rng.random() < 0.15:
         fl.append(dict(rng.choice(fl)))           # an exact repeat (FilterSet drops it)
+    scalars = [(pth, n) for pth, n in paths if n[0] in "ib" and pth != "type"]
+    if scalars and rng.random() < 0.12:
+        # two filters that differ only in the TYPE of the value (confidence = 50 and confidence = "50"): no object
+        # satisfies both `=`; FilterSet must keep both
+        pth, n = rng.choice(scalars)
+        op = rng.choice(["=", "=", "=", "!=", "in"])
+        a, b = n[1], str(n[1])
+        if op == "in":
+            a, b = [a], [b]
+        pair = [{"p": pth, "op": op, "v": a}, {"p": pth, "op": op, "v": b}]
+        rng.shuffle(pair)
+        fl += pair
+    if fl and rng.random() < 0.2:
+        # a twin that differs only in the TYPE of the value (50 / "50", True / "True"): a different filter
+        f = rng.choice(fl)
+        v = f["v"]
+        tw = None
+        if isinstance(v, bool) or (isinstance(v, int) and not isinstance(v, bool)):
+            tw = str(v)
+        elif isinstance(v, str) and re.match(r"^-?\d{1,6}$", v):
+            tw = int(v)
+        elif isinstance(v, str) and v in ("True", "False"):
+            tw = (v == "True")
+        if tw is not None and not (f["p"] == "type"):
+            fl.append({"p": f["p"], "op": f["op"], "v": tw})
     rng.shuffle(fl)
     return fl
 
@@ -728,8 +759,18 @@ def gen_case(rng, size, n_queries, outside):
             return gen_prop_filter(rng, own if own and rng.random() < 0.7 else paths, {})
         gets.append({"id": gid, "att": [one() for _ in range(rng.choice([0, 1, 1, 2]))],
                      "comp": [one() for _ in range(rng.choice([0, 1, 1, 2]))]})
-    return {"pop": pop, "split": rng.randrange(0, len(pop) + 1), "queries": queries, "gets": gets, "hist": hist,
+    case = {"pop": pop, "split": rng.randrange(0, len(pop) + 1), "queries": queries, "gets": gets, "hist": hist,
             "outside": outside, "grow": gen_grow(rng, pop, paths)}
+    if pop and rng.random() < 0.35:
+        # part of the directory the filesystem source reads is made of symbolic links (type directories, id
+        # directories, <id>.json files)
+        versioned = sorted({(o["type"], o["id"]) for o in pop if "modified" in dict(o["tree"][1])})
+        flat = sorted({(o["type"], o["id"]) for o in pop if "modified" not in dict(o["tree"][1])})
+        types = sorted({o["type"] for o in pop})
+        case["symlinks"] = {"types": rng.sample(types, min(len(types), rng.choice([0, 1, 2]))),
+                            "ids": [list(x) for x in rng.sample(versioned, min(len(versioned), rng.choice([0, 1, 2])))],
+                            "files": [list(x) for x in rng.sample(flat, min(len(flat), rng.choice([0, 1, 2])))]}
+    return case
 
 
 def gen_grow(rng, pop, paths):
@@ -768,7 +809,7 @@ def gen_grow(rng, pop, paths):
 def case_json(case):
     return {"pop": [to_json(o["tree"]) for o in case["pop"]], "split": case["split"],
             "queries": [{k: s[k] for k in SPEC_KEYS if k in s} for s in case["queries"]],
-            "gets": case["gets"], "grow": case.get("grow")}
+            "gets": case["gets"], "grow": case.get("grow"), "symlinks": case.get("symlinks")}
 
 
 # --------------------------------------------------------------------------
@@ -1010,7 +1051,7 @@ def has_ts_value(fl):
         v = f["v"]
         if isinstance(v, str) and TS_RE.match(v):
             return True
-        if isinstance(v, dict) and len(v) == 1 and "$t" in v:
+        if isinstance(v, dict) and len(v) == 1 and ("$t" in v or "$tz" in v):
             return True
     return False
 
@@ -1027,6 +1068,18 @@ def ts_text_shaped(kind, keys, expect, fl, pop, only_id=None):
     if kind == "OK":
         return bool(set(keys) ^ set(expect)) and (set(keys) ^ set(expect)) <= dict_keys
     return kind == "EXC"
+
+
+def replay_expect(expect, mline, flagged):
+    """What a replay should demand.  Objects whose id is not <own type>--<uuid> lie outside the layout hypothesis:
+    the unchanged code does not return them either (the model says which), so a replay must not demand them --
+    otherwise it would `reproduce` on the unchanged tree."""
+    if mline is None or not flagged:
+        return expect
+    pm = parse_line(mline)
+    if pm[0] == "OK" and set(pm[1]) <= set(expect) and set(expect) - set(pm[1]) <= set(flagged):
+        return sorted(set(pm[1]))
+    return expect
 
 
 def bad_keys(g, vals):
@@ -1070,7 +1123,7 @@ def judge_c2_att2(case, spec, spec_out, got, parsed, vals, vals_text, flagged_fs
         "the union of what each member may answer under its own filters is %s" % (
             json.dumps(spec["q"]), json.dumps(spec["att"]), json.dumps(spec["att2"]), json.dumps(spec["comp"]),
             got["c2"][:300], expect),
-        {"kind": "query", "pop": [to_json(o["tree"]) for o in pop], "split": k, "spec": spec_out, "route": "c2",
+        {"kind": "query", "symlinks": case.get("symlinks"), "pop": [to_json(o["tree"]) for o in pop], "split": k, "spec": spec_out, "route": "c2",
          "expect": expect}, finding=finding))
 
 
@@ -1102,7 +1155,7 @@ def oracle_case(case, impl, viol, stats, om, model_q=None, mode="TextOnDicts"):
                 "query %s given as %s: after the four sources answered, the caller's query object holds other filters than "
                 "before (a source added its own filters to it, so they leak into the next source's answers)" % (
                     json.dumps(spec["q"]), "a FilterSet" if spec.get("fset") else "a list"),
-                {"kind": "qarg", "pop": [to_json(o["tree"]) for o in pop], "split": k, "spec": spec_out}))
+                {"kind": "qarg", "symlinks": case.get("symlinks"), "pop": [to_json(o["tree"]) for o in pop], "split": k, "spec": spec_out}))
         if "att2" in spec:
             judge_c2_att2(case, spec, spec_out, got, parsed["c2"], vals, vals_text, flagged_fs2, viol, stats,
                           model_q[qi] if model_q is not None else None, mode)
@@ -1123,7 +1176,7 @@ def oracle_case(case, impl, viol, stats, om, model_q=None, mode="TextOnDicts"):
             if expect_text is not None and expect_text != expect and kind == "OK" and keys == expect_text:
                 finding = FINDINGS["ts"]
             elif expect_text is None and kind == "EXC" and any(not o["reg"] for o in pop) and \
-                    any(isinstance(f["v"], dict) and "$t" in f["v"] for f in fl):
+                    any(isinstance(f["v"], dict) and ("$t" in f["v"] or "$tz" in f["v"]) for f in fl):
                 finding = FINDINGS["ts"]      # datetime filter value against timestamp text: TypeError
             elif route in ("fs", "c2"):
                 fl_keys = flagged if route == "fs" else flagged_fs2
@@ -1156,9 +1209,14 @@ def oracle_case(case, impl, viol, stats, om, model_q=None, mode="TextOnDicts"):
                 stats["outside_layout_hypothesis"] += 1
                 if finding is None:
                     continue
-            viol.append(Violation(what, {"kind": "query", "pop": [to_json(o["tree"]) for o in pop], "split": k,
+            viol.append(Violation(what, {"kind": "query", "symlinks": case.get("symlinks"), "pop": [to_json(o["tree"]) for o in pop], "split": k,
                                          "spec": {kk: spec[kk] for kk in SPEC_KEYS if kk in spec},
-                                         "route": route, "expect": expect}, finding=finding))
+                                         "route": route,
+                                         "expect": replay_expect(expect, None if model_q is None else
+                                                                 {"mo": model_q[qi][0], "md": model_q[qi][0], "fs": model_q[qi][1],
+                                                                  "c2": model_q[qi][2]}[route],
+                                                                 flagged if route == "fs" else flagged_fs2 if route == "c2" else None)},
+                                  finding=finding))
     # monotonicity and conjunction = intersection, on the implementation's own answers
     fams = {}
     for qi, spec in enumerate(case["queries"]):
@@ -1236,7 +1294,7 @@ def oracle_gets(case, impl, viol, stats, model_g, vals, vals_text, flagged, flag
                         finding = None
                 elif op == "all_versions" and om == "OptAnyValue" and "in-string" in why_ty and kind == "OK" and set(keys) <= set(expect):
                     finding = FINDINGS["in-string"]
-                elif expect_text is None and line == "EXC TypeError" and any(isinstance(f["v"], dict) and "$t" in f["v"] for f in fl) \
+                elif expect_text is None and line == "EXC TypeError" and any(isinstance(f["v"], dict) and ("$t" in f["v"] or "$tz" in f["v"]) for f in fl) \
                         and any(not o2["reg"] and o2["id"] == g["id"] for o2 in pop):
                     finding = FINDINGS["ts"]      # datetime filter value against timestamp text: TypeError
                     if op == "get" and not (model_g is None or model_g[gi][ri] == line):
@@ -1275,8 +1333,9 @@ def oracle_gets(case, impl, viol, stats, model_g, vals, vals_text, flagged, flag
                     "holds are %s" % (route, op, g["id"], json.dumps(g["att"]),
                                       (" and composite filters " + json.dumps(g.get("comp", []))) if route in ("cmo", "cfs", "c2") else "",
                                       line[:300], expect),
-                    {"kind": "get", "pop": [to_json(o2["tree"]) for o2 in pop], "split": case["split"], "get": g, "route": route,
-                     "op": op, "expect": expect}, finding=finding))
+                    {"kind": "get", "symlinks": case.get("symlinks"), "pop": [to_json(o2["tree"]) for o2 in pop], "split": case["split"], "get": g, "route": route,
+                     "op": op, "expect": replay_expect(expect, None if model_g is None else model_g[gi][ri], fl_keys)},
+                    finding=finding))
 
 
 # --------------------------------------------------------------------------
@@ -1432,7 +1491,8 @@ def judge_grow(case, impl, model, viol, dis, stats, mode):
                     "returns %s; the reference evaluation over the objects added so far gives %s" % (
                         "FileSystemStore" if route == "fs" else "MemoryStore", cut, len(order), json.dumps(spec["q"]),
                         got[route][:300], expect),
-                    dict(payload, route=route, expect=expect), finding=finding))
+                    dict(payload, route=route, expect=replay_expect(expect, mline[1] if (mline is not None and route == "fs") else None,
+                                                                    flagged)), finding=finding))
     return n
 
 
@@ -1519,7 +1579,10 @@ def check(run):
         "in a third of the unrelated queries the two members of the composite carry different attached filters. Per "
         "population one history: a FileSystemStore and a MemoryStore receive the objects in two to five steps (half of the "
         "histories: objects without `modified` first) and the same store objects answer four queries after every step. "
-        "Every answer is compared "
+        "One population in three is read through symbolic links (type directories, id directories, <id>.json files "
+        "replaced by links to the same content). Filter values include aware datetimes of other zones than UTC (the "
+        "reference uses the instant the caller wrote) and pairs of filters that differ only in the TYPE of the value "
+        "(50 / '50', True / 'True'). Every answer is compared "
         "with the model (memory: exact order; filesystem: multiset / exception class) and with the reference "
         "evaluation (timestamps as instants); conjunction = intersection and monotonicity are checked on the "
         "implementation's own answers for triples (A, B, A+B). Non-trivial = non-empty population and at least one filter.")
@@ -1672,6 +1735,7 @@ def check(run):
         "<type>--<uuid>; populations that break it (unregistered custom dictionaries only) are generated, compared with the "
         "model, counted in coverage.oracle.outside_layout_hypothesis, and not judged by the oracle",
         "get(): only the clause 'the answer satisfies every attached / composite filter' is judged; which version get() picks is C11's subject",
+        "naive datetimes as filter values are not generated (the model has aware datetimes only)",
     ]
     ops = [r.get("filter_ops") for r in impl if r.get("filter_ops")]
     if ops and ops[0] != OPS:
@@ -1681,7 +1745,7 @@ def check(run):
 def replay(payload):
     r = payload["replay"]
     if r.get("kind") == "query":
-        case = {"pop": r["pop"], "split": r.get("split", 0), "queries": [r["spec"]], "gets": []}
+        case = {"pop": r["pop"], "split": r.get("split", 0), "queries": [r["spec"]], "gets": [], "symlinks": r.get("symlinks")}
         res = common.run_impl("c12_impl", [case], procs=1)[0]
         if "queries" not in res:
             print("replay: could not build the stores: %s" % res["build"])
@@ -1707,7 +1771,7 @@ def replay(payload):
         print("no violation on this input")
         return 0
     if r.get("kind") == "get":
-        res = common.run_impl("c12_impl", [{"pop": r["pop"], "split": r.get("split", 0), "queries": [], "gets": [r["get"]]}], procs=1)[0]
+        res = common.run_impl("c12_impl", [{"pop": r["pop"], "split": r.get("split", 0), "queries": [], "gets": [r["get"]], "symlinks": r.get("symlinks")}], procs=1)[0]
         if "gets" not in res:
             print("replay: could not build the stores: %s" % res["build"])
             return 1
@@ -1731,7 +1795,7 @@ def replay(payload):
         print("no violation on this input")
         return 0
     if r.get("kind") == "qarg":
-        case = {"pop": r["pop"], "split": r.get("split", 0), "queries": [r["spec"]], "gets": []}
+        case = {"pop": r["pop"], "split": r.get("split", 0), "queries": [r["spec"]], "gets": [], "symlinks": r.get("symlinks")}
         res = common.run_impl("c12_impl", [case], procs=1)[0]
         if "queries" not in res:
             print("replay: could not build the stores: %s" % res["build"])
